@@ -371,8 +371,8 @@ bool decode_upquery(const std::string &qname, const std::string &td, UpQuery &u)
 		u.cmd = 'd';
 		u.userid = c <= '9' ? c - '0' : c - 'a' + 10;
 		if (d.size() < 6) return false;
-		int h1 = b32val(d[1]), h2 = b32val(d[2]), h3 = b32val(d[3]);
-		if (h1 < 0 || h2 < 0 || h3 < 0) return false;
+		// header characters outside the Base32 alphabet decode as zero
+		int h1 = std::max(0, b32val(d[1])), h2 = std::max(0, b32val(d[2])), h3 = std::max(0, b32val(d[3]));
 		u.up_seq = (h1 >> 2) & 7; u.up_frag = ((h1 & 3) << 2) | ((h2 >> 3) & 3);
 		u.dn_seq = h2 & 7; u.dn_frag = h3 >> 1; u.last = h3 & 1; u.cmc = d[4];
 		std::string rest = d.substr(5);
@@ -387,10 +387,11 @@ bool decode_upquery(const std::string &qname, const std::string &td, UpQuery &u)
 		if ((c == 'l' || c == 'n' || c == 'p') && !u.b32.empty()) u.userid = u.b32[0];
 		return true;
 	case 'i': case 's': case 'o':
-		u.userid = b32val(d[1]);
+		// characters outside the Base32 alphabet decode as zero (documented decoder behaviour)
+		u.userid = std::max(0, b32val(d[1]));
 		return true;
 	case 'r':
-		if (d.size() >= 4) u.userid = (b32val(d[1]) >> 1) & 15;
+		if (d.size() >= 4) u.userid = (std::max(0, b32val(d[1])) >> 1) & 15;
 		return true;
 	case 'y': case 'z':
 		return true;
